@@ -5,3 +5,4 @@ import WowVerif.Props.C18
 import WowVerif.Props.C03
 import WowVerif.Props.C08
 import WowVerif.Props.C09
+import WowVerif.Props.C12
